@@ -101,7 +101,8 @@ pub fn run_msg(c: &MsgCase) -> Outcome {
     {
         // directory entries handed over before the filesystem failed stay behind the error reply
         let dr = fs.dir_returns.lock().unwrap();
-        if dr.contains(&crate::mockfs::DIR_FAILED) {
+        // (also when add_entry itself refused an entry and the mock passed that error on: marker -1)
+        if dr.iter().any(|r| *r == crate::mockfs::DIR_FAILED || *r == -1) {
             let n: i64 = dr.iter().filter(|x| **x > 0).sum();
             if n > 0 {
                 ranges.push((16, n as usize));
